@@ -19,7 +19,8 @@ def panic_rule(ctx, chk, prop, rule_name, roots, cut=None, floor=1):
     """shared by C04.P, C06.R1/R5, C20.P: every potential panic site in functions reachable from `roots`"""
     F, G = ctx.F, ctx.G
     inv = panics.Inventory(ctx)
-    safe = {e["site"]: e for e in ctx.table("safe_sites")["sites"]}
+    from ..renames import rekey_sites, rename_map
+    safe = rekey_sites(ctx, inv)       # allowlist entries follow a renamed / moved function (tables/function_snapshot.json)
     seen = G.reachable(roots, cut=cut)
     r = chk.rule(rule_name, "every potential panic site (unwrap/expect, documented-panicking std call, overflow/bounds/division assert, explicit panic) in a function reachable from the roots is guarded, exempt by table, or allowlisted with a reason", floor=floor)
     used_safe = set()
@@ -46,6 +47,17 @@ def panic_rule(ctx, chk, prop, rule_name, roots, cut=None, floor=1):
                               s.what, s.producer, fn.def_, safe[sid]["requires"]["dominating_test"], path),
                           s.file, s.line, fn.def_, {"site": sid, "allowlist_reason": safe[sid]["reason"]})
                 continue
+            if sid not in safe:
+                # the producer text / ordinal of an allowlisted site changes when the value is bound differently (`match` payload instead
+                # of a named local): accept an entry of the same function, kind and operation as long as the function has no more
+                # unproven sites of that kind and operation than it has entries (so every one of them is accounted for)
+                ents = [e for k_, e in safe.items() if k_.startswith(fn.def_ + "|" + s.kind + "|" + s.what + "|")]
+                if ents:
+                    nsites = len([x for x in inv.sites(fn) if x.status not in ("guarded", "exempt") and x.kind == s.kind and x.what == s.what])
+                    if nsites <= len(ents):
+                        cand = [e for e in ents if _requires_ok(fn, s, e)]
+                        if cand:
+                            safe[sid] = dict(cand[0], matched_by="function, kind and operation")
             msafe = None
             if sid not in safe:
                 for me in ctx.table("safe_sites").get("module_sites", []):
@@ -69,7 +81,7 @@ def panic_rule(ctx, chk, prop, rule_name, roots, cut=None, floor=1):
                       "potential panic: %s (%s) in %s is not dominated by a check that excludes the failing case%s; reachable: %s" % (
                           s.what, s.producer, fn.def_, (" [" + s.reason + "]") if s.reason else "", path),
                       s.file, s.line, fn.def_, {"site": sid, "kind": s.kind, "producer": s.producer, "call_path": path, "needs": s.extra})
-    r.note("functions analysed: %d; allowlist entries used: %d" % (nfn, len(used_safe)))
+    r.note("functions analysed: %d; allowlist entries used: %d; renamed functions whose entries were carried over: %s" % (nfn, len(used_safe), rename_map(ctx) or "none"))
     return r, seen, inv
 
 
@@ -100,7 +112,8 @@ def recursion_rule(ctx, chk, prop, rule_name, seen):
     F, G = ctx.F, ctx.G
     r = chk.rule(rule_name, "no call-graph cycle among the functions reachable from the roots (stack depth chosen by the input)")
     local = [n for n in seen if n in F.fns]
-    allow = {e["fn"]: e for e in ctx.table("safe_sites").get("recursion", [])}
+    from ..renames import rename_map
+    allow = {rename_map(ctx).get(e["fn"], e["fn"]): e for e in ctx.table("safe_sites").get("recursion", [])}
     sccs = G.sccs(local)
     for c in sccs:
         cyc = len(c) > 1 or any(e.dst == c[0] and e.kind in ("call", "trait-cha", "dyn-call") for e in G.out.get(c[0], []))
@@ -153,7 +166,8 @@ def run(ctx):
     if ctor400 is None:
         re_.violate("C04|E|anchor-missing|400-constructor", "no function builds a Response from the 400 status entry (anchor missing)")
     for name in R.connection_fns:
-        fn = ctx.inl(F.fns[name])       # private helpers (send-and-flush, reply-with-400) are part of the function for this rule
+        # private helpers (send-and-flush, reply-with-400) are part of the function for this rule; the rule's own anchors stay calls
+        fn = ctx.inl(F.fns[name], keep=tuple(x for x in (ctor400, "response::Response::generate_response") if x))
         cfg = cfg_of(fn)
         du = du_of(fn)
         g = guards_of(fn)
@@ -204,6 +218,10 @@ def run(ctx):
                     dominated = src
             want = ctor400 if dominated else "response::Response::generate_response"
             ok = prod == want
+            if not ok and not dominated and prod == ctor400 and any(cfg.edge_dominates(e, wb) for e, f in fail_edges):
+                # a defensive 400 on the failure of some other fallible step (e.g. a peer address that does not parse): allowed;
+                # what is required is that the read / parse / handler failures answer 400 and that the success path sends the response
+                ok, dominated = True, "another fallible step"
             re_.instance({"fn": name, "write_at_line": t["span"]["line"], "bytes_from": prod, "on_failure_of": dominated}, ok)
             if not ok:
                 re_.violate("C04|E|%s|write-%d" % (name, k),
